@@ -142,7 +142,11 @@ class TableGen:
         return sorted({r[-2] if kind != 'attrs' else r[2] for r in rows}) if rows else [0]
 
     def pi(self):
-        return b'\x43' + self.attr() + b'\x01'
+        b = self.attr()
+        if self.rng.random() < 0.4:
+            # PI data made of several pieces, one of them an extension that delivers nothing
+            b += self.string() + bytes([self.rng.choice([0xC0, 0xC1, 0xC2])]) + (self.string() if self.rng.random() < 0.5 else b'')
+        return b'\x43' + b + b'\x01'
 
     def attr(self):
         rng = self.rng
